@@ -188,7 +188,20 @@ func propC14(r *kernel.Run) {
 	// still hold is that nothing panics and every failure stays a temporary, per-connection error. After recovery
 	// (roots rotated, node enrolled again) the honest node connects again.
 	outage := false
+	var idleTotal time.Duration
 	honestDial := func(after string) {
+		if tp.Draw(4) == 0 {
+			// nothing happens for a while (seconds to hours): the listener sits in Accept
+			d := time.Duration(tp.Range(1, 40)) * time.Second
+			if tp.Draw(3) == 0 {
+				d = tp.DurLog(time.Minute, 12*time.Hour)
+			}
+			if idleTotal+d < 3*24*time.Hour { // stay well inside the validity of the honest node's certificates
+				idleTotal += d
+				r.Sleep(d)
+				r.Count("ops.idle_period_before_honest_dial", 1)
+			}
+		}
 		res := w.DialHonest(fmt.Sprintf("honest%d", r.NextID()), nodeW, w.Addr)
 		w.Quiesce()
 		if !res.done {
@@ -254,7 +267,7 @@ func propC14(r *kernel.Run) {
 			r.Count("fault.clock_jump_past_validity", 1)
 			r.Tracef("clock jump %v: validity outage begins", d)
 		}
-		kind := Pick2(tp, "raw-bytes", "alpn", "alpn", "alpn", "dropped-handshake", "dropped-handshake", "stall-then-drop", "unauthorized-fetch", "peer-aborts-with-alert")
+		kind := Pick2(tp, "raw-bytes", "alpn", "alpn", "alpn", "dropped-handshake", "dropped-handshake", "stall-then-drop", "unauthorized-fetch", "peer-aborts-with-alert", "forged-requests-naming-the-honest-node")
 		class := ""
 		// the server's own Close of a refused/handled connection may report an error (peer reset): still a per-connection matter
 		closeErr := tp.Draw(4) == 0
@@ -330,6 +343,20 @@ func propC14(r *kernel.Run) {
 			cert, _ := selfSignedTLS("attacker", x509.ExtKeyUsageClientAuth)
 			w.rawClient(name, &tls.Config{NextProtos: list, RootCAs: x509.NewCertPool(), MinVersion: tls.VersionTLS13, ServerName: "server", Certificates: []tls.Certificate{cert}})
 			r.Count("fault.peer_alert", 1)
+		case "forged-requests-naming-the-honest-node":
+			// anybody can read a node's public key off the wire: a burst of authentication requests that name the honest
+			// node's key with worthless signatures. They fail; the honest node is not affected.
+			nburst := tp.Range(3, 9)
+			class = "burst"
+			for b := 0; b < nburst; b++ {
+				nonce := tp.Bytes(32)
+				g := &types.GenerateServerCertificatesRequest{CertificatePublicKeyPkix: honest.Pkix, Nonce: nonce, NonceSignature: tp.Bytes(64)}
+				gb, _ := proto.Marshal(g)
+				cert, _ := selfSignedTLS("attacker", x509.ExtKeyUsageClientAuth)
+				w.rawClient(fmt.Sprintf("%s-%d", name, b), &tls.Config{NextProtos: chunkALPN(nodeenrollment.AuthenticateNodeNextProtoV1Prefix, base64.RawStdEncoding.EncodeToString(gb)), InsecureSkipVerify: true, MinVersion: tls.VersionTLS13, ServerName: "server", Certificates: []tls.Certificate{cert}})
+				w.Quiesce()
+			}
+			r.Count("fault.forged_requests_naming_honest_node", int64(nburst))
 		case "unauthorized-fetch":
 			// not hostile as such: an unauthorized node fetching; the fetch handshake completes and the server closes the connection
 			class = "pending-node"
